@@ -892,7 +892,14 @@ impl<'a> GeneratorState<'a> {
                                 // LDY has changed N and Z
                                 self.flags = FlagsState::Unknown;
                                 self.saved_y = true;
-                                Ok(ExprType::AbsoluteY(variable.into()))
+                                if high_byte && v.var_type == VariableType::CharPtr && v.signed {
+                                    self.generate_sign_extend(
+                                        ExprType::AbsoluteY(variable.into()),
+                                        pos,
+                                    )
+                                } else {
+                                    Ok(ExprType::AbsoluteY(variable.into()))
+                                }
                             } else {
                                 Err(self
                                     .compiler_state
@@ -915,7 +922,14 @@ impl<'a> GeneratorState<'a> {
                                 // LDY has changed N and Z
                                 self.flags = FlagsState::Unknown;
                                 self.saved_y = true;
-                                Ok(ExprType::AbsoluteY(variable.into()))
+                                if high_byte && v.var_type == VariableType::CharPtr && v.signed {
+                                    self.generate_sign_extend(
+                                        ExprType::AbsoluteY(variable.into()),
+                                        pos,
+                                    )
+                                } else {
+                                    Ok(ExprType::AbsoluteY(variable.into()))
+                                }
                             } else {
                                 Err(self
                                     .compiler_state
